@@ -5,7 +5,7 @@ from pyvc.spec import no_none_values, same_keys_where_not_none, implies
 U = "pyopenapi_gen.core.utils"
 
 # ---- _remove_none_values ----------------------------------------------------------------------------------------------
-c = contract(f"{U}:DataclassSerializer._remove_none_values", props=["C16"], nothrow=True, functional="remove_none_values")
+c = contract(f"{U}:DataclassSerializer._remove_none_values", props=["C16", "C04"], nothrow=True, functional="remove_none_values")
 
 @c.ensures(note="a value that is not None stays not None (needed so that filtered dicts contain no None after the recursive calls)")
 def rnv_not_none(obj, result):
@@ -19,7 +19,7 @@ def rnv_dict(obj, result):
 
 
 # ---- _serialize_with_tracking: visited-set discipline ---------------------------------------------------------------------
-c = contract(f"{U}:DataclassSerializer._serialize_with_tracking", props=["C16"], types={"visited": "intset"},
+c = contract(f"{U}:DataclassSerializer._serialize_with_tracking", props=["C16", "C04"], types={"visited": "intset"},
              modifies=["visited"], abstract_unsupported=True, abstract_comprehensions=True,
              tracked_names=["visited", "_serialize_with_tracking", "_ensure_all_dicts"])
 
@@ -37,14 +37,14 @@ def swt_scalars_unchanged(obj, visited, old, result):
     return implies(obj is None or isinstance(obj, (str, int, bool)), result == obj)
 
 
-c = contract(f"{U}:DataclassSerializer.serialize", props=["C16"], abstract_unsupported=True)
+c = contract(f"{U}:DataclassSerializer.serialize", props=["C16", "C04"], abstract_unsupported=True)
 
 @c.ensures(note="the public entry point inherits the scalar law from the tracked worker (fresh, empty in-progress set)")
 def ser_scalars_unchanged(obj, result):
     return implies(obj is None or isinstance(obj, (str, int, bool)), result == obj)
 
 
-c = contract(f"{U}:DataclassSerializer._ensure_all_dicts", props=["C16"], types={"visited": "intset"}, modifies=["visited"],
+c = contract(f"{U}:DataclassSerializer._ensure_all_dicts", props=["C16", "C04"], types={"visited": "intset"}, modifies=["visited"],
              abstract_unsupported=True, abstract_comprehensions=True, tracked_names=["visited", "_serialize_with_tracking", "_ensure_all_dicts"])
 
 @c.invariant(0)
